@@ -23,7 +23,9 @@ RULE = ("relayloop: scripted header schedules (gaps, repeats, lower heads, heads
         "emittable bridge events into ranges that hold good ones — same block before/after a good event, neighbouring block — with a "
         "recipient whose bech32 checksum is wrong, an operator address, a truncated or empty recipient, or 'eth' from a non-null token "
         "(`nonce!block` in the placement): the judge demands every GOOD confirmed event below the persisted cursor, an unconvertible "
-        "one may be skipped, never its neighbours; non-trivial = distinct schedule "
+        "one may be skipped, never its neighbours; GRACEFUL stops — SIGTERM or SIGINT sent to the child while the log query is being served, "
+        "between query and broadcast, while the broadcast is served, during the loop's sleep (two directed schedules + one random iteration "
+        "in ten) — after which the loop does whatever it does, Start returns, and the process is restarted on the same LevelDB; non-trivial = distinct schedule "
         "(every schedule has at least 4 header deliveries that reach the log query)")
 TRUSTED_BASE = [
     "Lean 4.33.0 kernel; axioms propext, Classical.choice, Quot.sound (audited per theorem on every run)",
